@@ -1,0 +1,10 @@
+//go:build verif
+// +build verif
+
+package types
+
+import "com.tuntun.rangers/node/src/middleware/log"
+
+// VerifSetLogger replaces the package-level logger used by the wire codecs
+// (accessor only; lets the C09 harness silence error logging during mass enumeration).
+func VerifSetLogger(l log.Logger) { logger = l }
